@@ -5,9 +5,10 @@
    map_caps / get_caps / gen_component / enum_members are Model/Catalog18.v (transcriptions of
    instance_catalog.py:60-87 and component_catalog.py:65-184, 232-254), the sort inside map_caps is
    Base/PySort.v (CPython's list.sort run with Capacities.__lt__). *)
-From Coq Require Import List ZArith NArith Bool String.
+From Coq Require Import List ZArith NArith Bool String Permutation.
 From FIM Require Import Base.Str Base.PySort Gen.Catalog Gen.CapsGen Model.Caps Model.Catalog18.
 From FIM Require Import Proofs.Catalog18Sizing Proofs.Catalog18Comp Proofs.Catalog18Lt Proofs.Catalog18Hist.
+From FIM Require Import Proofs.PySortPerm Proofs.Catalog18Generic Proofs.Catalog18Alias.
 Import ListNotations.
 Open Scope Z_scope.
 
@@ -193,6 +194,60 @@ Print Assumptions C18_gen_in_any_history.
 Theorem C18_history_initial_state : s_inst init_state = catalogue /\ s_comp init_state = comp_catalog.
 Proof. exact init_state_is_catalogues. Qed.
 Print Assumptions C18_history_initial_state.
+
+(* ---------------- what is proved about list.sort itself, and what follows for every catalogue ---------------- *)
+(* Base/PySort.v only moves elements: for ANY comparison (consistent or not) the result is a permutation of the input *)
+Theorem C18_sort_permutation : forall (A : Type), (forall x y : A, {x = y} + {x <> y}) ->
+  forall (lt : A -> A -> bool) (l r : list A), py_sort lt l = Some r -> Permutation l r.
+Proof. exact @py_sort_permutation. Qed.
+Print Assumptions C18_sort_permutation.
+
+(* hence, for EVERY catalogue and EVERY request (nothing evaluated): when candidates exist the answer names an entry that
+   satisfies the request; when none exists it is the last key *)
+Theorem C18_sufficient_any_catalogue : forall cat req n,
+  candidates cat req <> [] -> map_caps cat req = Some n ->
+  exists e, In e cat /\ fst e = n /\ fits req (snd e) = true.
+Proof. exact map_caps_sufficient. Qed.
+Print Assumptions C18_sufficient_any_catalogue.
+
+Theorem C18_fallback_any_catalogue : forall cat req, candidates cat req = [] -> map_caps cat req = last_opt (map fst cat).
+Proof. exact map_caps_fallback. Qed.
+Print Assumptions C18_fallback_any_catalogue.
+
+(* Minimality is NOT a consequence of "sorted and stable": Capacities.__lt__ (componentwise <=) is not a strict weak order,
+   and two correct stable sorts put different elements first -- list.sort picks 5.5.5, the textbook insertion sort 2.2.2.
+   C18_sizing therefore states minimality without reference to the sort (no other satisfying entry is <= the answer)
+   and proves it for the shipped catalogue through what list.sort does (C18_cells_ok). *)
+Theorem C18_choice_depends_on_sort_algorithm :
+  exists l, py_sort_first clt3 l = Some (5, 5, 5) /\ hd_error (ins_sort clt3 l) = Some (2, 2, 2) /\
+            clt3 (2, 2, 2) (5, 5, 5) = true.
+Proof. exact choice_depends_on_algorithm. Qed.
+Print Assumptions C18_choice_depends_on_sort_algorithm.
+
+(* ---------------- the caller's label objects ---------------- *)
+(* FULL STATEMENT (each port carries ITS label values, the caller's arguments are not modified):
+     gen_component_seen ... = gen_component ...   for all accepted arguments.
+   FALSE of the code: labels are attached and stamped without copying (component_catalog.py:150-158). *)
+Theorem C18_shared_label_refuted :
+  let e : comp_entry := (S"M", [], S"SmartNIC", S"d", Some [(S"p1", 100); (S"p2", 100)]) in
+  let lb := {| lab_bdf := BNone; lab_tag := 0%N |} in
+  exists c ns i, gen_component_seen [e] (S"n1") (ByTypeModel (Some (S"SmartNIC")) (Some (S"M"))) None None (Some [lb; lb]) None = Ok c /\
+    c_ns c = Some ns /\ nth_error (ns_ifs ns) 0 = Some i /\ if_name i = S"n1-p1" /\ if_local i = LStr (S"p2").
+Proof. exact shared_label_refuted. Qed.
+Print Assumptions C18_shared_label_refuted.
+
+(* partial: with pairwise distinct label objects (exactly the defect's signature excluded) the component the caller sees
+   is gen_component's, so C18_component describes it *)
+Theorem C18_distinct_labels_partial : forall cat e name nsid ids labs parent,
+  find_entry cat (e_model e) (e_type e) = Some e ->
+  type_from_str (e_type e) = Some (e_type e) ->
+  entry_args_wf e ids labs = true ->
+  (forall ports l, e_ifs e = Some ports -> labs = Some l ->
+     NoDup (map (fun pl : str * lab => lab_tag (snd pl)) (combine (map fst ports) l))) ->
+  gen_component_seen cat name (ByTypeModel (Some (e_type e)) (Some (e_model e))) nsid ids labs parent
+  = gen_component cat name (ByTypeModel (Some (e_type e)) (Some (e_model e))) nsid ids labs parent.
+Proof. exact seen_is_gen_component_when_distinct. Qed.
+Print Assumptions C18_distinct_labels_partial.
 
 (* ---------------- non-vacuity ---------------- *)
 (* some request has candidates and some has none; the cell list is not trivial; class_ok is not constantly true *)
